@@ -4,7 +4,7 @@ from .. import env, coq, runner
 
 LEVEL = 'proof'
 META = dict(
-    text='Coq theorems over a hand-written Gallina model of Circuit/Moment in the shape of circuit.py (operations as records of uid, qubits, measurement keys, control keys, parameter names; moments as lists; the placement cache and the five lazy summaries as explicit state; 37 public call forms): for every finite history the moments keep pairwise-disjoint qubits, the placement cache, whenever present, equals the summary recomputed from the moments, every lazily cached summary that is marked valid equals its recomputation, and no insert/append raises; insert with any strategy/index/operation tree loses or duplicates nothing and keeps the existing operations in order; for one operation (every strategy) and for append/constructor with any tree each operation lands behind every conflicting one and never across one; the cached append builds exactly the moments of the uncached insert at the end, and after any history insert/append (every strategy, index, tree) build the moments the same call builds on a freshly rebuilt equal circuit; batch_* edits are atomic; closed forms for NEW/INLINE placement and specifications of the two scans. The model is evaluated by vm_compute on the same edit histories the implementation ran (random histories, plus a fixed grid: a circuit whose append-placement cache is alive, one edit of every kind aimed at / behind the last operation on each qubit and key, then appends onto every qubit and key; moments as uid lists, return values, exception classes, queries compared after every call), and spec-level oracles (disjointness, multiset, documented exceptions, atomicity, the order clauses of the property text, placement per strategy for one operation and for whole trees at the end, every edit and every query compared with a freshly rebuilt equal circuit) run on the real code.',
+    text='Coq theorems over a hand-written Gallina model of Circuit/Moment in the shape of circuit.py (operations as records of uid, qubits, measurement keys, control keys, parameter names; moments as lists; the placement cache and the five lazy summaries as explicit state; 37 public call forms): for every finite history the moments keep pairwise-disjoint qubits, the placement cache, whenever present, equals the summary recomputed from the moments, every lazily cached summary that is marked valid equals its recomputation, and no insert/append raises; insert with any strategy/index/operation tree loses or duplicates nothing and keeps the existing operations in order; for one operation (every strategy) and for append/constructor with any tree each operation lands behind every conflicting one and never across one; the cached append builds exactly the moments of the uncached insert at the end, and after any history insert/append (every strategy, index, tree) build the moments the same call builds on a freshly rebuilt equal circuit; the index insert returns (every strategy, index, tree, cached or not) is not in front of the insertion point and the moments from it on are an untouched tail of the moments that stood at or behind the insertion point, so every inserted operation lies in front of it; batch_* edits are atomic; closed forms for NEW/INLINE placement and specifications of the two scans. The model is evaluated by vm_compute on the same edit histories the implementation ran (random histories, plus a fixed grid: a circuit whose append-placement cache is alive, one edit of every kind aimed at / behind the last operation on each qubit and key, then appends onto every qubit and key; and a second fixed grid: trees of every conflict shape inserted at every index of small circuits with each strategy, followed by an insert at the returned index; moments as uid lists, return values, exception classes, queries compared after every call), and spec-level oracles (disjointness, multiset, documented exceptions, atomicity, the order clauses of the property text, placement per strategy for one operation and for whole trees at the end, the documented meaning of the index insert / insert_into_range return (every inserted operation in front of it; follow-up inserts at it with all five strategies land after every conflicting operation of the first call; chained inserts keep call order), every edit and every query compared with a freshly rebuilt equal circuit) run on the real code.',
     note='Trusted: Coq kernel; the Python adapters in vf/checks/c05.py (op vocabulary carrying uids, calling Cirq, printing Gallina literals, the spec-level oracles = the reading of the property text). The quantifier over histories is proved for the model and only sampled for the model-implementation correspondence. Proved for the model but only compared on samples for multi-operation mid-circuit inserts: the order clauses; for zip/concat_ragged/insert_at_frontier/batch_replace: conservation of operations. _load_contents_with_earliest_strategy is modelled as sequential cached placement. Not covered: diagrams/__str__, JSON, extended slices (step != 1), deprecated helpers. known_findings/C05.json: two defects found by this check were repaired (with_tags kept a stale placement cache; batch_insert mis-shifted later indices) and are guarded by the positive theorems and the oracles; open: concat_ragged and insert_at_frontier ignore key conflicts (kept as refuted theorems whose witnesses are replayed on every run), and two residual batch_insert edge cases (negative indices; shift after a multi-operation group that spills past the next index).',
     technique='Rocq/Coq proof (induction over call lists, invariants of the insertion loops) over an executable Gallina model + vm_compute correspondence on random edit histories + spec-level oracles on the implementation',
 )
@@ -557,6 +557,9 @@ class Gen:
     def call(self):
         rng, n = self.rng, len(self.w.c)
         r = rng.random()
+        ret = getattr(self.w, 'last_ret', None)
+        if ret is not None and rng.random() < 0.3:       # chained: insert at the index the insert just before returned
+            return dict(c='insert', i=ret, items=self.items(1, 3), s=rng.choice(STRATS), chained=True)
         if r < 0.16:
             return dict(c='insert', i=self.index(), items=self.items(), s=self.strategy())
         if r < 0.38:
@@ -1039,6 +1042,94 @@ def oracle_placement(w, call, before, after, res):
     return None
 
 
+PROBE_UID = 900000      # uids of the operations the returned-index oracle inserts in its follow-up calls
+
+
+def probe_spec(sp):
+    """An operation that conflicts with an operation of spec `sp` on every qubit and every key that one has."""
+    return dict(q=list(sp['q']), mk=sorted(set(sp['mk']) | set(sp['ck'])), ck=[], pn=[], kind='kop')
+
+
+def chain_clause(s, first, second, moms2):
+    """Chained inserts keep call order: every operation the first insert placed comes before every conflicting
+    operation of the insert made at the index the first one returned.  Returns (x, y) of the first broken pair."""
+    p2 = positions(moms2)
+    for x in first:
+        for y in second:
+            if x in p2 and y in p2 and conflict(s, x, y) and not p2[x][0] < p2[y][0]:
+                return x, y, p2
+    return None
+
+
+def oracle_returned_index(w, call, before, after, res):
+    """Circuit.insert / insert_into_range return 'the insertion index that will place operations just after the
+    operations that were inserted by this method'.  Judged by that meaning: every inserted operation sits in a moment
+    in front of the returned index, and a follow-up insert at the returned index (run on a freshly rebuilt equal circuit,
+    one operation on the qubits and keys of each inserted one, and a second copy of the whole tree, with every strategy)
+    puts its operations after every conflicting operation the first insert placed."""
+    k = call['c']
+    if k not in ('insert', 'range') or res[0] != 'int':
+        return None
+    ins = item_uids(call['items'])
+    flat = [u for m in after for u in m]
+    if not ins or len(set(flat)) != len(flat) or len(set(ins)) != len(ins):
+        return None          # nothing inserted / repeated operations: positions are ambiguous
+    r = res[1]
+    pa = positions(after)
+    if any(x not in pa for x in ins):
+        return None          # the multiset oracle reports the loss
+    how = (f'{call["s"]} insert of {call["items"]} at {call["i"]}' if k == 'insert'
+           else f'insert_into_range({call["items"]}, {call["s"]}, {call["e"]})')
+    head = (f'{how} into {before} gives {after} and returns {r}, documented as the insertion index that places operations '
+            f'just after the operations inserted by the call')
+    try:
+        base = shadow_world(w)
+    except ValueError:
+        return None          # moments not well formed (the wf oracle reports it)
+    followups = []
+    uid = PROBE_UID
+    for x in ins:
+        sp = w.spec(x)
+        if sp['q'] or sp['mk'] or sp['ck']:
+            followups.append(({uid: probe_spec(sp)}, [uid]))
+            uid += 1
+    if len(call['items']) > 1:       # the same tree once more (fresh operations of the same shapes)
+        table, tree = {}, []
+        for it in call['items']:
+            us = it['m'] if isinstance(it, dict) else [it]
+            new = []
+            for x in us:
+                table[uid] = dict(w.spec(x))
+                new.append(uid)
+                uid += 1
+            tree.append({'m': new} if isinstance(it, dict) else new[0])
+        followups.append((table, tree))
+    for table, tree in followups:
+        for s2 in STRATS:
+            s = World.__new__(World)
+            s.cirq, s.v = w.cirq, w.v
+            s.ops, s.ops0, s.objs = dict(base.ops), dict(base.ops0), dict(base.objs)
+            s.c = base.c.copy()
+            for u, sp in table.items():
+                s.add_op(u, sp)
+            call2 = dict(c='insert', i=r, items=tree, s=s2)
+            res2 = exec_call(s, call2)
+            moms2 = s.moments_uids()
+            shown = {u: {f: v for f, v in sp.items() if v and f != 'kind'} for u, sp in table.items()}
+            if res2[0] != 'int':
+                return f'{head}; the follow-up {s2} insert of {shown} at {r} gives {res2}'
+            bad = chain_clause(s, ins, item_uids(tree), moms2)
+            if bad:
+                x, y, p2 = bad
+                return (f'{head}; but inserted operation {x} {w.spec(x)} sits in moment {pa[x][1]}, and the follow-up {s2} insert of '
+                        f'{tree} = {shown} at the returned index {r} gives {moms2}: {y} (moment {p2[y][1]}) does not come after the '
+                        f'conflicting operation {x} (moment {p2[x][1]}) placed by the first insert')
+    late = [x for x in ins if pa[x][1] >= r]
+    if late:
+        return f'{head}; but inserted operation {late[0]} sits in moment {pa[late[0]][1]}, not in front of the returned index'
+    return None
+
+
 def rebuilt(w):
     """A freshly built circuit with equal moments (new Moment objects, no cached state)."""
     cirq = w.cirq
@@ -1119,6 +1210,8 @@ def run_history(w, calls, rng=None, gen=None, n_calls=0):
     a problem is (step, oracle kind, description)."""
     out_calls, trace, problems, rendered = [], [], [], []
     w.rendered = rendered
+    last_insert = None      # the latest insert / insert_into_range that returned an index, while nothing else edited the circuit
+    w.last_ret = None
     it = iter(calls) if gen is None else None
     for step in range(n_calls if gen is not None else len(calls)):
         call = gen.call() if gen is not None else next(it)
@@ -1165,6 +1258,24 @@ def run_history(w, calls, rng=None, gen=None, n_calls=0):
         p = oracle_placement(w, call, before, moms, res)
         if p:
             add('placement', p)
+        p = oracle_returned_index(w, call, before, moms, res)
+        if p:
+            add('retindex', p)
+        # chained inserts written out in the history: k = c.insert(k, A, s); c.insert(k, B, s') keeps A before B
+        if call['c'] == 'insert' and call.get('chained') and last_insert and call['i'] == last_insert['ret'] and res[0] == 'int' \
+                and len(set(flat_a)) == sum(flat_a.values()):
+            bad = chain_clause(w, last_insert['ins'], item_uids(call['items']), moms)
+            if bad:
+                x, y, p2 = bad
+                add('retindex', f'chained inserts: {last_insert["how"]} returned {last_insert["ret"]}; the next call, {call["s"]} insert of '
+                                f'{call["items"]} at that index, gives {moms}: operation {y} {w.spec(y)} (moment {p2[y][1]}) does not come after '
+                                f'the conflicting operation {x} {w.spec(x)} (moment {p2[x][1]}) inserted by the call before')
+        if call['c'] in ('insert', 'range') and res[0] == 'int':
+            last_insert = dict(ret=res[1], ins=item_uids(call['items']),
+                               how=f'{call["c"]} {({f: v for f, v in call.items() if f not in ("c", "chained")})} on {before}')
+        elif call['c'] not in QUERIES:
+            last_insert = None
+        w.last_ret = last_insert['ret'] if last_insert else None
         if shadow is not None:
             # the edit itself must not depend on what the circuit remembers of its past: the same call on a freshly
             # rebuilt equal circuit gives the same result and the same moments
@@ -1211,7 +1322,8 @@ def run(ctx):
                 'all five strategies, indices negative/past the end, batch/range/frontier edits, slice assignment, deletion, clearing, '
                 '+, *, **-1, zip, concat_ragged, transform_qubits, freeze/unfreeze, with_tags, queries interleaved; plus the edit-then-append grid '
                 '(circuits built by Circuit(tree)/appends in three ways, one aimed edit of every kind on/behind the last operation of each qubit and key, '
-                'then single-operation and whole-tree appends onto all qubits and keys); after every call the '
+                'then single-operation and whole-tree appends onto all qubits and keys); plus the insert-then-insert grid (18 tree shapes x every index x 5 strategies on a '
+                'key-free base, a base with keys and rng-drawn bases, each followed by an insert at the returned index); after every call the '
                 'moments (uid lists), return value / exception class are compared with the Gallina model; non-trivial = >= 3 mutating '
                 'calls, >= 3 operations left and a moment with >= 2 operations; distinct by canonical history')
     ctx.assumptions += ['vf/checks/c05.py adapters: op vocabulary (uid-carrying gates/operations), canonicalisation of results, Gallina literal printing',
@@ -1221,6 +1333,7 @@ def run(ctx):
     witness_stream(ctx, cirq, vocab)
     moment_stream(ctx, cirq, vocab, 150 if ctx.tier == 'quick' else 400)
     grid_stream(ctx, cirq, vocab)
+    retindex_stream(ctx, cirq, vocab)
     n = 500 if ctx.tier == 'quick' else 6000
     history_stream(ctx, cirq, vocab, n)
 
@@ -1511,6 +1624,98 @@ def grid_stream(ctx, cirq, vocab):
         hists.append((w, calls, trace))
         account(ctx, 'edit-then-append', w, calls, trace, problems, cirq, vocab)
     compare_with_model(ctx, cirq, vocab, hists, 'grid', 300)
+
+
+# ---- the returned insertion index: one insert of every tree shape at every index with every strategy, then a chained insert --------
+# The index an insert returns is only observable through what is done with it.  The grid inserts trees of every conflict
+# shape (one operation; two or three on one qubit; independent ones; two-qubit operations tied to one-qubit ones in every
+# order; operations on an unused qubit; measurement / control / bare key conflicts; Moments between operations; only Moments;
+# nothing) at every index of small circuits (one without and one with keys, plus rng-drawn ones; built from Moments or by
+# the EARLIEST constructor, i.e. with the append-placement cache alive) with each of the five strategies, and then inserts a
+# second tree at the returned index with a rotating strategy.  The returned-index oracle probes every first insert with
+# follow-up inserts of all five strategies; every step also goes through the model comparison and the other oracles.
+def tree_shapes(a, b, f, k0, k1):
+    M = lambda q, k: dict(q=[q], mk=[k], ck=[], pn=[], kind='meas')
+    C = lambda q, k: dict(q=[q], mk=[], ck=[k], pn=[], kind='cc')
+    K = lambda k: dict(q=[], mk=[k], ck=[], pn=[], kind='kop')
+    return [
+        [U1([a])], [U1([a]), U1([a])], [U1([a]), U1([a]), U1([a])], [U1([a]), U1([b])],
+        [U1([a, b]), U1([b]), U1([a])], [U1([a]), U1([b]), U1([a, b])], [U1([a]), U1([a, b]), U1([b])],
+        [U1([a]), U1([b]), U1([a]), U1([b])], [U1([f]), U1([f]), U1([f])], [U1([a]), U1([f]), U1([a])],
+        [M(a, k0), C(b, k0)], [C(b, k0), M(a, k0), C(f, k0)], [K(k1), K(k1)], [M(a, k0), M(b, k0)],
+        [U1([a]), ('m', [U1([a])]), U1([a])], [('m', [U1([a])]), ('m', [U1([b])])], [('m', [U1([a]), U1([b])]), U1([a]), U1([a])],
+        [],
+    ]
+
+
+def retindex_histories(cirq, vocab, rng, tier):
+    """Yields (ops, calls): build ; insert(k, tree, s) ; insert(<returned index>, second tree, s')."""
+    quick = tier == 'quick'
+    bases = []
+    # no keys, two busy qubits, a free one: [[1], [2, 3], [4]]
+    ops = {1: U1([0]), 2: U1([0]), 3: U1([1]), 4: U1([1])}
+    bases.append((ops, [dict(c='new', items=[{'m': [1]}, {'m': [2, 3]}, {'m': [4]}], s='EARLIEST')], (0, 1, 2, 0, 1), None))
+    # keys and controls, every qubit busy, built by the EARLIEST constructor (cache alive)
+    bases.append((dict(FIXED_BASE), [dict(c='new', items=list(range(1, 12)), s='EARLIEST')], (0, 2, NQ + 1, 0, 1), 3 if quick else None))
+    for _ in range(1 if quick else 8):
+        w0 = World(cirq, vocab)
+        g0 = Gen(rng, w0)
+        if rng.random() < 0.5:
+            build = [dict(c='new', items=[{'m': m} for m in g0.circuit(4)], s='EARLIEST')]
+        else:
+            build = [dict(c='new', items=g0.items(3, 8), s='EARLIEST')]
+        a, b, f = rng.sample(range(NQ), 3)
+        bases.append((dict(w0.ops), build, (a, b, f, rng.randrange(NK), rng.randrange(NK)), 3 if quick else None))
+    count = 0
+    for ops, build, par, nidx in bases:
+        w = World(cirq, vocab, ops)
+        for c in build:
+            exec_call(w, c)
+        n = len(w.c)
+        idxs = list(range(-1, n + 2))
+        if nidx is not None and len(idxs) > nidx:
+            idxs = sorted(rng.sample(range(0, n + 1), min(nidx, n + 1)))
+        for shape in tree_shapes(*par):
+            for k in idxs:
+                for s1 in STRATS:
+                    ops2 = dict(ops)
+                    nxt = max(ops2, default=0) + 1
+
+                    def fresh(shape):
+                        nonlocal nxt
+                        tree = []
+                        for it in shape:
+                            sps = it[1] if isinstance(it, tuple) else [it]
+                            us = []
+                            for sp in sps:
+                                ops2[nxt] = dict(sp)
+                                us.append(nxt)
+                                nxt += 1
+                            tree.append({'m': us} if isinstance(it, tuple) else us[0])
+                        return tree
+                    first = dict(c='insert', i=k, items=fresh(shape), s=s1)
+                    # the index the implementation returns decides where the chained insert goes
+                    w1 = World(cirq, vocab, ops2)
+                    for c in build:
+                        exec_call(w1, c)
+                    r1 = exec_call(w1, first)
+                    calls = build + [first]
+                    if r1[0] == 'int':
+                        second = fresh(shape) if (shape and (count // 5) % 2 == 0) else fresh([U1([par[0]])])
+                        calls = calls + [dict(c='insert', i=r1[1], items=second, s=STRATS[(count // 5 + count) % 5], chained=True)]
+                    count += 1
+                    yield ops2, calls
+
+
+def retindex_stream(ctx, cirq, vocab):
+    import random
+    hists = []
+    for ops, calls in retindex_histories(cirq, vocab, ctx.rng, ctx.tier):
+        w = World(cirq, vocab, ops)
+        calls, trace, problems = run_history(w, calls, random.Random(0))
+        hists.append((w, calls, trace))
+        account(ctx, 'insert-then-insert', w, calls, trace, problems, cirq, vocab)
+    compare_with_model(ctx, cirq, vocab, hists, 'retidx', 300)
 
 
 def compare_with_model(ctx, cirq, vocab, hists, name, shard):
